@@ -314,13 +314,30 @@ func tpRecord(args []string) error {
 		if err != nil {
 			return err
 		}
-		ew.emit(map[string]interface{}{"ev": "reset", "t": t, "limit": 2 * gp})
+		// the shape of the run (for the trace specifications that take it from the trace)
+		cells, colws := [][]interface{}{}, [][]interface{}{}
+		for _, e := range g.events {
+			w := e["w"].(tpW)
+			switch e["ev"] {
+			case "cell.spawn":
+				cells = append(cells, []interface{}{w.T, w.R, w.C})
+			case "col.spawn":
+				colws = append(colws, []interface{}{w.T, w.C})
+			}
+		}
+		base := make([]string, len(g.tables))
+		for tb, no := range g.tables {
+			if len(tb.Cols) > 0 {
+				base[no-1] = tpKeyName(tb.Cols[0])
+			}
+		}
+		ew.emit(map[string]interface{}{"ev": "reset", "t": t, "limit": 2 * gp, "nt": len(g.tables), "cells": cells, "cols": colws, "base": base})
 		for _, e := range g.events {
 			e["t"] = t
 			ew.emit(e)
 		}
 	}
-	ew.emit(map[string]interface{}{"ev": "reset", "t": -1, "limit": 0})
+	ew.emit(map[string]interface{}{"ev": "reset", "t": -1, "limit": 0, "nt": 1, "cells": [][]interface{}{}, "cols": [][]interface{}{}, "base": []string{"-"}})
 	return ew.close()
 }
 
